@@ -282,7 +282,9 @@ def attribute(res):
         e['origin_line'] = fl
         # the function lost its proof overlay (extract.py degraded mode) and still has loops: a failure there is most likely a missing
         # invariant, so it is undecided; in loop-free code the contract alone decides
-        e['undecided_shape'] = bool(f and f.get('degraded') and f.get('has_loops'))
+        # ... unless the failing program point lies in the straight-line prefix in front of the function's first loop
+        e['undecided_shape'] = bool(f and f.get('degraded') and f.get('has_loops')
+                                    and not (f.get('first_loop_line') and 0 < fl < f['first_loop_line']))
         e['degraded'] = (f.get('degraded') if f else None)
 
 
